@@ -257,6 +257,15 @@ impl C16 {
           ymdhms(&f.get_child_limit().get_end_time()),
         )
       }) {
+        // the decade before the first one (index -1, the months before the limit ends) is ten years earlier as well, when
+        // that is not before birth
+        if base_age >= 10 {
+          if let Ok((sa, ea, sa2)) = guard(|| { let cl = ChildLimit::from_solar_time(bt, gender); let d = cl.get_decade_fortune(); (d.get_start_age() as i64, d.get_end_age() as i64, cl.get_start_decade_fortune().next(-1).get_start_age() as i64) }) {
+            if (sa, ea, sa2) != (base_age - 10, base_age - 1, base_age - 10) {
+              out.fail(env, viol("limit", "decade_before_the_first", case, &k, desc.clone(), format!("ages {}..{}", base_age - 10, base_age - 1), format!("ages {}..{} (via next(-1): start {})", sa, ea, sa2)));
+            }
+          }
+        }
         let e0 = by + ge.0 - y;
         let exp_dec: Vec<(i64, i64)> = (0..3).map(|j| (e0 + 10 * j, e0 + 10 * j + 9)).collect();
         let exp_yf: Vec<i64> = (0..3).map(|j| e0 + j).collect();
@@ -387,6 +396,12 @@ fn birth_strategy() -> impl Strategy<Value = (i64, i64)> {
   prop_oneof![
     7 => (lo..hi, 0i64..86400),
     1 => (lo..hi, 82800i64..86400),
+    // births in the ten years before a century year, late in a month: limits that end around Feb 28/29/Mar 1 of century years
+    // (leap under the Julian rule before 1582, by the 400-year rule after)
+    1 => (1i64..=99, 1i64..=3660, 0i64..86400).prop_map(|(cc, back, s)| {
+      let c = cal();
+      ((c.year_start[(cc * 100) as usize] as i64 + 60 - back).max(c.year_start[2] as i64), s)
+    }),
     1 => (a1571..a1583, 0i64..86400),
     // month/year ends and Feb 28/29
     1 => (2i64..9988, 1i64..=12, 0i64..3, 0i64..86400).prop_map(|(y, m, back, s)| {
